@@ -99,6 +99,21 @@ def build_cases(ctx):
                     except (TypeError, ValueError, UnicodeError):
                         continue
                     cases.append({"w": wire.case("verify_signable", {"signatures": {k0: sg2}, "signed": pl}, [k0], 1, gpg), "meta": {"s": "F"}})
+    # G: the boundary between payload and hashed header moved, with a header whose own fields would "explain" the other split:
+    # an authorized key signed payload 12345 with a header whose octets 2..3 equal its subpacket-length field; the same signature
+    # presented for payload 123 with other_headers = "45" + header must not count (the trailer counts the octets actually hashed)
+    import hashlib
+    from modelrun import ed_sign
+    from gen import SEEDS
+    for tail in (b"45", b"5", b"2345"):
+        full = 12345
+        short = int(str(full)[: 5 - len(tail)])
+        ln = 48
+        H = bytes([4, 0, ln >> 8, ln & 255, ln >> 8, ln & 255]) + rng.randbytes(ln)
+        sg = ed_sign(SEEDS[0], hashlib.sha256(E.frame(E.canon(full), H)).digest()).hex()
+        for hdr, pl in ((tail + H, short), (H, full), (H, short), (tail + H, full)):
+            for t in (1,):
+                cases.append({"w": wire.case("verify_signable", {"signatures": {k0: {"other_headers": hdr.hex(), "signature": sg}}, "signed": pl}, [k0], t, True), "meta": {"s": "G"}})
     # C: random larger maps
     nrand = 1500 if ctx.quick else 20000
     allkinds = []
@@ -175,7 +190,7 @@ def run(ctx):
     cases = build_cases(ctx)
     core.run_stream(ctx, core.Stream("verify_signable: entry kinds x key lists x thresholds x modes x payloads (A,B,D exhaustive; C random)",
                                      cases, rel, oracle_sound, nontrivial))
-    sub = [c for c in cases if c["meta"]["s"] in ("A", "D", "E", "E3", "F")]
+    sub = [c for c in cases if c["meta"]["s"] in ("A", "D", "E", "E3", "F", "G")]
     core.failing_stdout_streams(ctx, "verify_signable on the entry-kind cases", sub,
                                 lambda c: oracle_sound(c, "O") is None)
     ctx.assumptions = ["'cryptographically valid' is the verdict of the ed25519 verification primitive (pyca/OpenSSL in the implementation, the oracle table in the model)",
